@@ -48,13 +48,58 @@ class RStr:
         return 'str(%s)' % show_bytes(self.b)
 
 
+class TrackList(list):
+    """the bytes of a string buffer, remembering the largest length the buffer ever had (`hw`): a small string that once grew beyond its
+    inline capacity stays on the heap when it is shortened in place (smartstring's lazily compacting mode)"""
+    __slots__ = ('hw',)
+
+    def __init__(self, it=()):
+        list.__init__(self, it)
+        self.hw = len(self)
+
+    def _up(self):
+        if len(self) > self.hw:
+            self.hw = len(self)
+
+    def append(self, x):
+        list.append(self, x); self._up()
+
+    def extend(self, xs):
+        list.extend(self, xs); self._up()
+
+    def insert(self, i, x):
+        list.insert(self, i, x); self._up()
+
+    def __iadd__(self, xs):
+        list.extend(self, xs); self._up()
+        return self
+
+    def __setitem__(self, k, v):
+        list.__setitem__(self, k, v); self._up()
+
+
 class StringBuf:
     """String / SmartString / SmallString: growable byte buffer with identity"""
-    __slots__ = ('b', 'kind')
+    __slots__ = ('_b', 'kind')
 
     def __init__(self, b=(), kind='String'):
-        self.b = list(b)
+        self._b = TrackList(b)
         self.kind = kind
+
+    @property
+    def b(self):
+        return self._b
+
+    @b.setter
+    def b(self, v):
+        # new content for the same buffer: the high-water mark is kept
+        hw = self._b.hw
+        self._b = TrackList(v)
+        self._b.hw = max(hw, len(self._b))
+
+    @property
+    def high_water(self):
+        return self._b.hw
 
     def __repr__(self):
         return 'String(%s)' % show_bytes(self.b)
@@ -157,7 +202,9 @@ def clone_val(v):
     if isinstance(v, Adt):
         return Adt(v.ty, v.variant, [clone_val(f) for f in v.fields])
     if isinstance(v, StringBuf):
-        return StringBuf(v.b, v.kind)
+        c = StringBuf(v.b, v.kind)          # a bit copy (MIR `copy` / move): the representation, hence the high-water mark, is kept
+        c.b.hw = v.b.hw
+        return c
     if isinstance(v, VecVal):
         return VecVal([clone_val(x) for x in v.items])
     if isinstance(v, MapVal):
